@@ -424,6 +424,12 @@ ENGINES = [
     {"name": "c10bmp", "gen": gen_c10bmp, "corpus": corpus_c10bmp, "nontrivial": nontrivial_bmp, "classify": classify_bmp, "shards": 4},
 ]
 
+from props.e2e_common import e2e_engine, E2E_TRUSTED   # noqa: E402
+# which script a unit's filter comes from: a real pipeline (Manager, bmp-tcp-in, rib units, HTTP) started with a roto_script, the
+# script edited / renamed / removed, reloads that start a second RIB unit; RIB answers over HTTP (design-notes/E2E.md)
+ENGINES.append(e2e_engine("C10"))
+TRUSTED_BASE.append(E2E_TRUSTED)
+
 LEVEL_TEXT = ("Theorems over ALL filter functions, units and renderings for the three call sites (reject is a no-op, accept equals the "
               "unfiltered unit, no filter accepts, outputs leave once, in call order, ahead of the message's own effect), over all "
               "programs of a deep embedding of the Roto fragment (verdict totality, entries = calls on the path taken, predicate "
